@@ -14,6 +14,7 @@ mod suite_axes;
 mod suite_build;
 mod suite_entity;
 mod suite_ffixed;
+mod suite_fanyorder;
 mod suite_fmap;
 mod suite_fclone;
 mod suite_forest;
